@@ -69,6 +69,10 @@ pub struct FaultSpec {
     /// merge function (k is ignored)
     #[serde(default)]
     pub merge_nth: u32,
+    /// the component does not return an error: it panics (user code that unwinds through the
+    /// library; what the library's objects do when they are dropped afterwards must stay sound)
+    #[serde(default)]
+    pub panic: bool,
 }
 
 pub const IO_ERR_KINDS: &[io::ErrorKind] = &[
@@ -420,6 +424,10 @@ impl EnvInner {
                 create_variant: f.err % 4,
             });
             self.fx.inc(&format!("fault.{}", kind.name()));
+            if f.panic {
+                self.fx.inc("fault.component_panicked");
+                panic!("SIM-COMPONENT-PANIC: the user-supplied component panicked in its {} call (component call {})", kind.name(), f.k);
+            }
         }
         hit
     }
